@@ -47,6 +47,14 @@ def slotsOf (cfg : Cfg) (c : CallSpec) : Nat :=
     | none => cfg.execCores
     | some k => if k = 1 ∧ cfg.execCores ≥ 1 then cfg.execCores else k) * c.threads.getD 1
 
+/-- `ExecutorBase.submit` (code after fixes 06d6e8a, 472d455): without block allocation a request
+    of more than `max_cores` slots — the slots `_submit_function_to_separate_process` will account
+    for the call — is refused with `ValueError`. -/
+def submitTooBig (cfg : Cfg) (c : CallSpec) : Bool :=
+  match cfg.block, cfg.maxCores with
+  | none, some mc => decide (mc < slotsOf cfg c)
+  | _, _ => false
+
 /-! ## dynamic state -/
 
 variable {Val Err : Type}
@@ -338,7 +346,7 @@ def mainStep (s : State Val Err) (lbl : Label Val Err) : Option (State Val Err) 
     | .submit :: rest =>
       let i := s.nsub
       let c := cfg.calls.getD i {}
-      if s.frontOpen ∧ i < cfg.calls.length ∧ ¬ (cfg.block.isSome ∧ c.hasRes) then
+      if s.frontOpen ∧ i < cfg.calls.length ∧ ¬ (cfg.block.isSome ∧ c.hasRes) ∧ submitTooBig cfg c = false then
         let s1 := setFut { s with script := rest, nsub := i + 1 } i .pending
         some (setQ s1 (frontQ cfg) ((getQ s1 (frontQ cfg)).put (.task i [])))
       else none
@@ -348,7 +356,7 @@ def mainStep (s : State Val Err) (lbl : Label Val Err) : Option (State Val Err) 
     | .submit :: rest =>
       let i := s.nsub
       let c := cfg.calls.getD i {}
-      if i < cfg.calls.length ∧ (¬ s.frontOpen ∨ (cfg.block.isSome ∧ c.hasRes)) then
+      if i < cfg.calls.length ∧ (¬ s.frontOpen ∨ (cfg.block.isSome ∧ c.hasRes) ∨ submitTooBig cfg c = true) then
         some { s with script := rest, nsub := i + 1, raised := s.raised + 1 }
       else none
     | _ => none
